@@ -1148,7 +1148,7 @@ class Exec:
         if cm and (cm.group(1) + "::" + cm.group(2)) in STD_CONSTS:
             return STD_CONSTS[cm.group(1) + "::" + cm.group(2)]
         if t.startswith('b"'):
-            return Opaque("bytes")
+            return Opaque("bytes:" + " ".join(re.findall(r"[A-Za-z`'][\x20-\x5b\x5d-\x7e]{2,}", re.sub(r"\\(x[0-9a-fA-F]{2}|.)", "\\\\", t[2:-1]))))
         if t.startswith("ZeroSized: "):
             body = t[len("ZeroSized: "):]
             if body.startswith("{closure@"):
